@@ -1,6 +1,59 @@
-(* Props/C34.v — property theorems only. *)
+(* Props/C34.v — property C34 "Environment lists behave like an ordered map".
+   Property theorems only; every proof is `exact <lemma>` from Proofs/ListEnvironProofs.v.
+   Model: Vars/ListEnviron.v (transliteration of expand/environ.go after fix dec6fe0).
+   Spec : spec_get = association list built left to right, a later valid pair wins
+          (spec_get_last_binding below characterises it without recursion). *)
+From Coq Require Import Sorting.Sorted.
 From Verif Require Import Base.Str Vars.ListEnviron Proofs.ListEnvironProofs.
 
+(* Get returns the last value given for a name and nothing for names never given;
+   invalid pairs (no '=', empty name) are ignored; never panics — for ALL pair lists and ALL names,
+   including names containing '=' or empty names. *)
+Theorem C34_get : forall pairs name, api_get pairs name = Ok (spec_get pairs name).
+Proof. exact api_get_spec. Qed.
+Print Assumptions C34_get.
+
+(* what the spec means, without recursion: the LAST valid pair with that name *)
+Theorem C34_spec_get_last_binding : forall pairs n v, spec_get pairs n = Some v <->
+  exists l1 p l2, pairs = l1 ++ p :: l2 /\ valid_pair p = Some (n, v) /\
+                  Forall (fun q => forall w, valid_pair q <> Some (n, w)) l2.
+Proof. exact spec_get_some_iff. Qed.
+Print Assumptions C34_spec_get_last_binding.
+
+(* Each never panics, yields names in strictly increasing plain string order (hence each at most once),
+   and yields (n,v) exactly for the surviving bindings of the map. *)
+Theorem C34_each : forall pairs,
+  exists l, api_each pairs = Ok l /\
+            StronglySorted lt_str (map fst l) /\
+            forall n v, In (n, v) l <-> spec_get pairs n = Some v.
+Proof. exact api_each_spec. Qed.
+Print Assumptions C34_each.
+
+Theorem C34_strictly_sorted_means_once_and_sorted : forall l : list str,
+  StronglySorted lt_str l -> NoDup l /\ sorted_names l = true.
+Proof. intros l H. split; [exact (ssorted_lt_nodup l H)|exact (ssorted_lt_sorted_names l H)]. Qed.
+Print Assumptions C34_strictly_sorted_means_once_and_sorted.
+
+(* construction never panics (the slices.Delete(list, i-1, i) with i = 0 cannot happen) *)
+Theorem C34_construct_no_panic : forall pairs, exists out, list_environ pairs = Ok out.
+Proof. intros pairs. destruct (list_environ_ok pairs) as (out & H & _). exists out. exact H. Qed.
+Print Assumptions C34_construct_no_panic.
+
+(* FuncEnviron treats an empty value as unset *)
 Theorem C34_func_empty_unset : forall f name, func_get f name = None <-> f name = [].
 Proof. exact func_get_none_iff. Qed.
 Print Assumptions C34_func_empty_unset.
+
+Theorem C34_func_nonempty_set : forall f name v, func_get f name = Some v <-> (f name = v /\ v <> []).
+Proof. exact func_get_some. Qed.
+Print Assumptions C34_func_nonempty_set.
+
+(* non-vacuity: duplicates, prefix names (the pre-fix order bug: "A" vs "A1"), invalid pairs,
+   '=' in values, a name containing '=' (the pre-fix panic: Get("A=5")) *)
+Open Scope N_scope.
+Example C34_example_each :
+  api_each [[65;49;61;50]; [66]; [65;61;49]; [61;3]; [65;61;54;61;55]]   (* A1=2 B A=1 =\003 A=6=7 *)
+  = Ok [([65], [54;61;55]); ([65;49], [50])].                            (* A -> 6=7, A1 -> 2 *)
+Proof. vm_compute. reflexivity. Qed.
+Example C34_example_get_eq_name : api_get [[65;61;53]] [65;61;53] = Ok None.   (* Get("A=5") on ["A=5"] *)
+Proof. vm_compute. reflexivity. Qed.
